@@ -716,6 +716,72 @@ def _mol_low():
         "  pure output", ""])
 
 
+def _mol_interpolate():
+    """`MolGrid.interpolate` (grid/molgrid.py) outside its inner function, statement by statement (round 6): the store guard, the
+    product with the atom-in-molecule weights — also when it is written as an `if len(self.atcoords) <cmp> k:` with one such assignment in
+    each branch —, the loop over the atoms with its slice bounds, the call of the atomic `interpolate` on the slice."""
+    W = "MolGrid.interpolate"
+    tree = ast.parse((SRC / "molgrid.py").read_text())
+    cls = next((n for n in tree.body if isinstance(n, ast.ClassDef) and n.name == "MolGrid"), None)
+    if cls is None:
+        raise Untranslatable("class MolGrid not found")
+    outer = _method(cls, "interpolate")
+    _need([a.arg for a in outer.args.args] == ["self", "func_vals"], W + ": signature", outer.args)
+    b = _body(outer)
+    _need(len(b) == 6, W + ": number of statements", outer)
+    g0, asg, init, loop = b[0], b[1], b[2], b[3]
+    ok = (isinstance(g0, ast.If) and _src(g0.test) == "self.atgrids is None" and not g0.orelse and len(g0.body) == 1 and isinstance(g0.body[0], ast.Raise)
+          and _src(g0.body[0].exc).startswith("ValueError("))
+    _need(ok, W, g0)
+    ex = IEx({"func_vals": ("K", "(func_vals j)"), "self.aim_weights": ("K", "(m.aim j)")})
+
+    def assign(st_):
+        _need(isinstance(st_, ast.Assign) and _src(st_.targets[0]) == "func_vals_atom", W, st_)
+        _need({n.id for n in ast.walk(st_.value) if isinstance(n, ast.Name)} <= {"func_vals", "self"}, W, st_)
+        return f"fun j => {ex.asK(ex.tr(st_.value))}"
+    L = []
+    if isinstance(asg, ast.If):
+        t = asg.test
+        ok = (isinstance(t, ast.Compare) and len(t.ops) == 1 and _src(t.left) == "len(self.atcoords)" and type(t.ops[0]) in NATCMP and len(asg.body) == 1 and len(asg.orelse) == 1)
+        _need(ok, W, asg)
+        k = _int_const(t.comparators[0], W)
+        _need(k >= 0, W, asg)
+        L += [f"  -- if {_src(t)}: {_src(asg.body[0])} else: {_src(asg.orelse[0])}",
+              f"  let func_vals_atom : Nat → K := if (m.nAtoms {NATCMP[type(t.ops[0])]} {k}) then ({assign(asg.body[0])}) else ({assign(asg.orelse[0])})"]
+    else:
+        L += [f"  -- {_src(asg)}", f"  let func_vals_atom : Nat → K := {assign(asg)}"]
+    _need(_src(init) == "interpolate_funcs = []", W, init)
+    ok = (isinstance(loop, ast.For) and _src(loop.iter) == "range(len(self.atcoords))" and isinstance(loop.target, ast.Name) and not loop.orelse and len(loop.body) == 4)
+    _need(ok, W, loop)
+    iv = loop.target.id
+    b1, b2, b3, b4 = loop.body
+    iex = IEx({iv: ("N", iv)})
+    bounds = []
+    for b_ in (b1, b2):
+        _need(isinstance(b_, ast.Assign) and isinstance(b_.targets[0], ast.Name) and isinstance(b_.value, ast.Subscript) and _src(b_.value.value) in ("self.indices", "self._indices")
+              and not isinstance(b_.value.slice, (ast.Slice, ast.Tuple)), W, b_)
+        bounds.append((b_.targets[0].id, iex.asNat(iex.tr(b_.value.slice))))
+    (lo, lov), (hi, hiv) = bounds
+    _need(lo != hi and _src(b3) == f"atom_grid = self[{iv}]", W, b3)
+    _need(_src(b4) == f"interpolate_funcs.append(atom_grid.interpolate(func_vals_atom[{lo}:{hi}]))", W, b4)
+    _need(isinstance(b[4], ast.FunctionDef) and b[4].name == "interpolate_low" and _src(b[5]) == "return interpolate_low", W, b[5])
+    L += [f"  -- {_src(init)}; for {iv} in {_src(loop.iter)}: {_src(b1)}; {_src(b2)}; {_src(b3)}; {_src(b4)}",
+          f"  let interpolate_funcs := (List.range m.nAtoms).map fun {iv} =>",
+          f"    let {lo} : Nat := m.aidx {lov}",
+          f"    let {hi} : Nat := m.aidx {hiv}",
+          f"    let atom_grid : AGrid K := m.atom {iv}",
+          f"    atom_interpolate atom_grid (fun j => func_vals_atom ({lo} + j))",
+          "  -- def interpolate_low(…): …; return interpolate_low",
+          "  molInterpolateLow interpolate_funcs", ""]
+    head = ["/-- `MolGrid.interpolate(func_vals)` (grid/molgrid.py), statement by statement, after its guard `if self.atgrids is None: raise ValueError` (`store=True`);",
+            "`atom_interpolate g f` is `AtomGrid.interpolate` of the stored atomic grid `g` on the function values `f` (re-indexed from 0: the slice",
+            "`func_vals_atom[start_index:final_index]`); the answer is the inner `interpolate_low` (generated above) closed over the atomic interpolants. -/",
+            "def molInterpolate {P : Type} (m : GridVerif.AtomInterp.MGrid K)",
+            "    (atom_interpolate : AGrid K → (Nat → K) → P → Nat → Bool → Bool → Except Err (List Nat × List K)) (func_vals : Nat → K) :",
+            "    P → Nat → Bool → Bool → Except Err (List Nat × List K) :="]
+    return "\n".join(head + L)
+
+
 def _basis_angles(fn):
     """`theta, phi = self.convert_cartesian_to_spherical().T[1:]` of radial_component_splines (text checked by `_splines`)."""
     return "\n".join([
@@ -746,6 +812,7 @@ def render() -> str:
         _basis_angles(_method(cls, "radial_component_splines")),
         _interp_low(_method(cls, "interpolate")),
         _mol_low(),
+        _mol_interpolate(),
         "end generic\n\nend GridVerif.Gen.AtomInterp\n",
     ]
     return "\n".join(parts)
